@@ -141,7 +141,22 @@ class TracerTwin(BoundedCheck):
                     want = ['start', 'before', 0] + list(range(1, k))        # the raising pass stores nothing
                 if idx != want:
                     bad('trace of a solved period holds start, before, 0, 1..k, end; an unsolved period stops after its last pass', 'c17.labels', want, idx, 'label_sequence')
-                elif status == '.':
+                elif 'X' in names and len(idx) == tr.values.shape[1]:
+                    # snapshot j holds the traced values after evaluation pass j (the scripted X of pass j); start / before / 0 hold the initial value
+                    row = names.index('X')
+                    for col, lab in enumerate(idx):
+                        if isinstance(lab, int) and lab >= 1:
+                            act = case['script'][lab - 1]
+                            wantx = float('-inf') if act == 'warn' else {'nan': float('nan'), 'inf': float('inf')}.get(act, act)
+                        elif lab == 'end':
+                            continue
+                        else:
+                            wantx = 0.0
+                        gotx = float(tr.values[row, col])
+                        if isinstance(wantx, str) or not (gotx == wantx or (gotx != gotx and wantx != wantx)):
+                            bad('snapshot j holds the traced variables after evaluation pass j', 'c17.snapshot-values', {'label': lab, 'want': wantx}, gotx, 'snapshot')
+                            break
+                if idx == want and status == '.':
                     final = tr.values[:, -1]
                     stored = np.array([traced[nm][2] for nm in names], dtype=float)
                     if list(tr.names) != names or not eq_arr(final, stored):
